@@ -92,7 +92,35 @@ CONTRACTS = [
        ensures=[("reads-the-raw-slot", f"result == (not (is_none(RAWV({N})) if F_optional({N}) else is_placeholder(RAWV({N}))))"),
                 ("C14-observer-is-pure", "RAWARR() == old(RAWARR()) and GCARR() == old(GCARR()) and SOWF() == old(SOWF()) and UNKF() == old(UNKF())")],
        top=["C14-observer-is-pure"], props=["C14", "C06"]),
+    FN("betterproto.Message.__copy__", types={"self": "model:rawmsg", "_": "obj"}, returns="any",
+       requires=[("well-formed-class", "WF() and NAMES_WF()"), ("after-__post_init__", "INITIALISED()")],
+       ensures=[("C14-copy-has-the-same-values", "forall(0, NF, lambda jq: same(RAWV_OF(result, jq), RAWV(jq)))"),
+                ("C14-copy-keeps-presence", "SOWF_OF(result) == SOWF()"),
+                ("C14-copy-keeps-unknown-fields", "UNKF_OF(result) == UNKF()"),
+                ("C14-copy-keeps-selection", "GCARR_OF(result) == GCARR()"),
+                ("C14-original-untouched", "RAWARR() == old(RAWARR()) and GCARR() == old(GCARR()) and SOWF() == old(SOWF()) and UNKF() == old(UNKF())")],
+       top=["C14-copy-has-the-same-values", "C14-copy-keeps-presence", "C14-copy-keeps-unknown-fields", "C14-copy-keeps-selection"],
+       loops={0: LOOP(index="sk", inv=[
+           ("copied-so-far", "forall(0, NF, lambda jq: same(SELECT(KWARR(kwargs), jq), RAWV(jq)) if SORTED_RANK(jq) < sk"
+                             " else is_placeholder(SELECT(KWARR(kwargs), jq)))"),
+           ("frame", "RAWARR() == old(RAWARR()) and GCARR() == old(GCARR()) and SOWF() == old(SOWF()) and UNKF() == old(UNKF()) and INITIALISED()")])},
+       props=["C14", "C07", "C08"]),
+    FN("betterproto.Message.__deepcopy__", types={"self": "model:rawmsg", "_": "obj"}, returns="any",
+       requires=[("well-formed-class", "WF() and NAMES_WF()"), ("after-__post_init__", "INITIALISED()")],
+       ensures=[("C14-deepcopy-has-the-same-scalars-and-the-same-unset-fields",
+                 "forall(0, NF, lambda jq: (same(RAWV_OF(result, jq), RAWV(jq)) if IS_SCALAR_VALUE(RAWV(jq)) else not is_placeholder(RAWV_OF(result, jq))))"),
+                ("C14-copy-keeps-presence", "SOWF_OF(result) == SOWF()"),
+                ("C14-copy-keeps-unknown-fields", "UNKF_OF(result) == UNKF()"),
+                ("C14-copy-keeps-selection", "GCARR_OF(result) == GCARR()"),
+                ("C14-original-untouched", "RAWARR() == old(RAWARR()) and GCARR() == old(GCARR()) and SOWF() == old(SOWF()) and UNKF() == old(UNKF())")],
+       top=["C14-deepcopy-has-the-same-scalars-and-the-same-unset-fields", "C14-copy-keeps-presence", "C14-copy-keeps-unknown-fields", "C14-copy-keeps-selection"],
+       loops={0: LOOP(index="sk", inv=[
+           ("copied-so-far", "forall(0, NF, lambda jq: ((same(SELECT(KWARR(kwargs), jq), RAWV(jq)) if IS_SCALAR_VALUE(RAWV(jq)) else not is_placeholder(SELECT(KWARR(kwargs), jq)))"
+                             " if SORTED_RANK(jq) < sk else is_placeholder(SELECT(KWARR(kwargs), jq))))"),
+           ("frame", "RAWARR() == old(RAWARR()) and GCARR() == old(GCARR()) and SOWF() == old(SOWF()) and UNKF() == old(UNKF()) and INITIALISED()")])},
+       props=["C14", "C07", "C08"]),
     FN("betterproto.Message.__copy_state", types={"self": "model:rawmsg", "new": "model:rawmsg"}, returns="any", modifies=["new"],
+       inline_at_calls=True,
        requires=[("initialised", "INITIALISED() and INITIALISED_OF(new)")],
        ensures=[("C14-copy-keeps-presence", "SOWF_OF(new) == SOWF()"),
                 ("C14-copy-keeps-unknown-fields", "UNKF_OF(new) == UNKF()"),
